@@ -27,6 +27,7 @@ RULE = (
     "emulator: one readout per visit, all views consistent, frequencies equal to a recount of the readouts (no "
     "counter wraps or saturates).  Non-trivial = n >= 2 and some outcome whose bit string is not a palindrome. "
     "distinct = (text, outputs)."
+    " The outcomes' low bits are also supplied as booleans (bool and numpy.bool_ mixed): same readouts and counts as the same values supplied as ints."
 )
 ASSUMPTIONS = ["the int <-> string convention is the one documented in core/result.py: qubit 0 = least significant bit = leftmost character"]
 
